@@ -15,7 +15,7 @@
 (* `groups' of a case selects which properties' clauses are evaluated:     *)
 (*   "template" (C07)  "solve" (C01, C05)  "c02"  "c03"  "c06"  "c13"      *)
 (***************************************************************************)
-EXTENDS Pipeline, Solve, Json, IOUtils
+EXTENDS Pipeline, Simulate, Json, IOUtils
 
 Cases == JsonDeserialize(IOEnv.CASES)
 
@@ -179,6 +179,38 @@ RowVerdict(ev, p, i, Vn, Vobs) ==
       r02 == IF Grp("c02") THEN RowChoice(M, p, Vn, row, Tol) ELSE ""
       r06 == IF Grp("c06") THEN RowC06(ev, p, row, Vobs) ELSE ""
   IN IF r13 # "" THEN r13 ELSE IF r03 # "" THEN r03 ELSE IF r02 # "" THEN r02 ELSE r06
+(***************************************************************************)
+(* Diagnostic (never a verdict): the intermediate state of one simulated   *)
+(* period recorded by the hooks sim_space / sim_policy against the         *)
+(* implementation-shaped module Simulate: rows of the data state-choice    *)
+(* space and their segment ids, the per-row conditional values and         *)
+(* continuous policies, the dense and sparse arg-max, the value.           *)
+(***************************************************************************)
+ArrOfFlat(flat, shape) == [idx \in ToSet(Prod(shape)) |-> flat[RowMajorPos(idx, shape)]]
+SimStepDiag(ev, p) ==
+  IF ~C.diag_sim \/ Len(ev.steps) # M.T \/ Len(ev.V) # M.T THEN <<>>
+  ELSE
+  LET st == ev.steps[p + 1]
+      agents == [i \in 1..ev.N |-> RowAt(ev, p, i).state]
+      Vnext == IF p = M.T - 1 THEN <<>> ELSE TLCEval(ArrOfFlat(ev.V[p + 2], Shape(M, p + 1)))
+      rows == DataRows(M, p, agents)
+      combos == SparseChoiceCombos(M)
+      ds == DenseChoiceIdx(M)
+      hasSC == CanonSparseChoices(M) # <<>>
+      pol == TLCEval([r \in DOMAIN rows |-> [j \in DOMAIN ds |-> CcvPolicy(M, p, Vnext, RowEnv(M, p, agents, rows[r], ds[j]))]])
+      rowMax(r) == RMaxOver(DOMAIN ds, LAMBDA j : pol[r][j][2])
+      seg(i) == {r \in DOMAIN rows : rows[r][1] = i}
+      segMax(i) == RMaxOver(seg(i), rowMax)
+      nd == Len(ds)
+  IN IF st.nrows # Len(rows) THEN <<"sim-step-differs:number-of-rows">>
+     ELSE IF hasSC /\ \E r \in DOMAIN rows : \E n \in DOMAIN combos[rows[r][2]] :
+                        st.sparse[n][r] # GridVal(VarRec(M, n), combos[rows[r][2]][n]) THEN <<"sim-step-differs:rows">>
+     ELSE IF hasSC /\ st.segments # [r \in DOMAIN rows |-> rows[r][1] - 1] THEN <<"sim-step-differs:segment-ids">>
+     ELSE IF Len(st.ccv) # Len(rows) * nd THEN <<"sim-step-differs:ccv-shape">>
+     ELSE IF \E r \in DOMAIN rows : \E j \in DOMAIN ds : ~Close(pol[r][j][2], st.ccv[(r - 1) * nd + j], Tol) THEN <<"sim-step-differs:ccv">>
+     ELSE IF \E i \in 1..ev.N : ~Close(segMax(i), st.value[i], Tol) THEN <<"sim-step-differs:value">>
+     ELSE <<"sim-steps-agree">>
+
 SkipSet == {"SKIP:transition-into-excluded-state", "SKIP:ill-defined-arithmetic",
             "SKIP:agent-outside-space", "SKIP:no-feasible-choice"}
 
@@ -197,9 +229,10 @@ TrSimPeriod ==
            ELSE verdict' = verdict
         /\ nrows' = nrows + ev.N
         /\ nskip' = nskip + Cardinality(skip)
+        /\ diag' = diag \o SimStepDiag(ev, t)
   /\ t' = t + 1
   /\ IF t = M.T - 1 THEN pc' = "events" /\ l' = l + 1 ELSE UNCHANGED <<pc, l>>
-  /\ UNCHANGED <<cid, Vs, exact, diag, Ci>>
+  /\ UNCHANGED <<cid, Vs, exact, Ci>>
 
 (* ------------------------------------------------------------ relations between recorded runs *)
 (***************************************************************************)
